@@ -236,5 +236,66 @@ def cases(draw):
     return c
 
 
+# ------------------------------------------------------------------ CLI corollary: identical bunches, empty buckets
+def run_cli(case):
+    import os
+    from vlib import cli, cfggen
+    wd = cli.scratch("c08")
+    o = dict(case["opts"])
+    a = case["current"]
+    pats = {"single": [a], "pair": [a, a], "gap": case["gap_pattern"]}
+    H = {}
+    for name, pat in pats.items():
+        oo = dict(o, BunchCurrent=pat, RoundPadding=True)
+        if len(pat) > 1:
+            oo["alpha0"] = case["alpha0"]
+        else:
+            oo["alpha0"] = case["alpha0"]
+        r = cli.run(["-c", "/dev/null", "-o", name + ".h5"] + cli.optargs(oo), wd)
+        if r.rc != 0 or "Finished." not in r.out:
+            return Outcome(False, True, ["cli"], "run %s failed: %s %s" % (name, r.out[-300:], r.err[-300:]), sig="c08:cli:runfail")
+        H[name] = cli.H5(os.path.join(wd, name + ".h5"))
+    cls = ["cli", "it%d" % o["InterpolationPoints"]]
+    nontriv = True
+    per = ["/BunchLength/data", "/BunchPosition/data", "/EnergySpread/data", "/EnergyAverage/data"]
+    for name in ("pair", "gap"):
+        h = H[name]
+        for ds in per + ["/BunchProfile/data", "/EnergyProfile/data", "/PhaseSpace/data", "/BunchPopulation/data"]:
+            x = h[ds]
+            if (gen.bits(x[:, 0]) != gen.bits(x[:, 1])).any():
+                return Outcome(False, nontriv, cls, "two identical bunches without impedance differ in %s (filling %s)" % (ds, pats[name]), sig="c08:cli:identical:%s" % ds)
+        for ds in per:
+            if (gen.bits(h[ds][:, 0]) != gen.bits(H["single"][ds][:, 0])).any():
+                dmax = np.abs(h[ds][:, 0].astype(np.float64) - H["single"][ds][:, 0]).max()
+                return Outcome(False, nontriv, cls, "%s of a bunch in the train (filling %s) differs from the single-bunch run (max diff %.3g)" % (ds, pats[name], dmax), sig="c08:cli:single:%s" % ds)
+        ps2, ps1 = h["/PhaseSpace/data"][:, 0].astype(np.float64) * 2, H["single"]["/PhaseSpace/data"][:, 0].astype(np.float64)
+        if np.abs(ps2 - ps1).max() > 3e-7 * np.abs(ps1).max():
+            return Outcome(False, nontriv, cls, "phase space of a bunch in the train (filling %s) is not half the single-bunch phase space: max diff %.3g" % (pats[name], np.abs(ps2 - ps1).max()), sig="c08:cli:single:ps")
+    for ds in per + ["/PhaseSpace/data"]:
+        if (gen.bits(H["gap"][ds]) != gen.bits(H["pair"][ds])).any():
+            return Outcome(False, nontriv, cls, "empty buckets (%s vs %s) change %s" % (pats["gap"], pats["pair"], ds), sig="c08:cli:emptybucket:%s" % ds)
+    return Outcome(True, nontriv, cls)
+
+
+@st.composite
+def cli_cases(draw):
+    from vlib import cfggen
+    o = draw(cfggen.base_config(nmin=16, nmax=40, min_laststep=4, max_laststep=40, multibunch=False, wake=("none",)))
+    o.pop("BunchCurrent", None)
+    o.pop("padding", None)
+    o["outstep"] = draw(st.sampled_from([1, 2, 5]))
+    o["SavePhaseSpace"] = 1
+    a = gen.f32(draw(st.floats(2e-4, 3e-3)))
+    nempty = draw(st.integers(1, 2))
+    pos = draw(st.integers(0, nempty))
+    gap = [a] + [0.0] * nempty + [a] if pos else [0.0] * nempty + [a, a]
+    if draw(st.booleans()):
+        gap = [a, a] + [0.0] * nempty
+    sps = draw(st.floats(1.1, 2.0))
+    alpha0 = gen.f32(cfggen.alpha0_for_spacing(sps, dict(o, BunchCurrent=[a, a], RoundPadding=True)))
+    return dict(opts=o, current=a, gap_pattern=gap, alpha0=alpha0)
+
+
 def subs(tier):
-    return [Sub("maps", cases(), run_case, quick=2000, thorough=80000)]
+    return [Sub("maps", cases(), run_case, quick=12000, thorough=80000),
+            Sub("cli", cli_cases(), run_cli, quick=96, thorough=400, needs=("rel", "h5x", "shim"), shrink_budget=16)]
